@@ -25,4 +25,61 @@ def evalInto (out : NDA α) (v : Arr α) : NDA α :=
 def evalFresh [Inhabited α] (colMajor : Bool) (v : Arr α) : NDA α :=
   evalInto { shape := v.shape, colMajor := colMajor, data := List.replicate (prod v.shape) default } v
 
+/-- `detail::eval` on `nmtools_maybe<view>` (eval.hpp:254-270): Nothing stays Nothing, a value is evaluated -/
+def evalMaybe [Inhabited α] (colMajor : Bool) (ov : Option (Arr α)) : Option (NDA α) :=
+  ov.map (evalFresh colMajor)
+
+/-! ## compositions
+
+  A view of views, as the evaluator sees it: every node answers `shape` and `get`, and computes `get` from the `get`
+  of its operands (decorator_t holds nested views by value, arrays by pointer; view/decorator.hpp:249-271).
+
+    index  w fill e    any `indexing_t` view (transpose … slice, pad, broadcast_to …): `w.apply`
+    map    f e         unary ufunc
+    zip    f e₁ e₂     binary ufunc on operands of one shape (nmtools broadcasts them with `index` nodes first)
+    gather s r g e     result shape `s`; element `d` = `g` of the operand's elements at the indices `r d`, in that order
+                       (reductions, accumulations: `r` = reduceReads / accumulateReads, `g` = the left fold)
+    gather2 …          the same with two operands (matmul, tensordot, where-like selections by position)
+-/
+inductive Expr (α : Type) where
+  | leaf : Arr α → Expr α
+  | index : IxView → α → Expr α → Expr α
+  | map : (α → α) → Expr α → Expr α
+  | zip : (α → α → α) → Expr α → Expr α → Expr α
+  | gather : Shape → (Idx → List Idx) → (List α → α) → Expr α → Expr α
+  | gather2 : Shape → (Idx → List Idx) → (Idx → List Idx) → (List α → List α → α) → Expr α → Expr α → Expr α
+
+/-- what the lazy view denotes -/
+def Expr.denote : Expr α → Arr α
+  | .leaf a => a
+  | .index w fill e => w.apply e.denote fill
+  | .map f e => e.denote.map f
+  | .zip f e₁ e₂ => ⟨e₁.denote.shape, fun d => f (e₁.denote.get d) (e₂.denote.get d)⟩
+  | .gather s r g e => ⟨s, fun d => g ((r d).map e.denote.get)⟩
+  | .gather2 s r₁ r₂ g e₁ e₂ => ⟨s, fun d => g ((r₁ d).map e₁.denote.get) ((r₂ d).map e₂.denote.get)⟩
+
+/-- the side conditions under which the C++ views are defined: operand shapes match what the node was built for,
+    every access stays inside the operand (C02), extents are positive -/
+def Expr.WF : Expr α → Prop
+  | .leaf a => Pos a.shape
+  | .index w _ e => e.WF ∧ w.src = e.denote.shape ∧ w.InBounds ∧ Pos w.dst
+  | .map _ e => e.WF
+  | .zip _ e₁ e₂ => e₁.WF ∧ e₂.WF ∧ e₁.denote.shape = e₂.denote.shape
+  | .gather s r _ e => e.WF ∧ Pos s ∧ ∀ d, InShape d s → ∀ i ∈ r d, InShape i e.denote.shape
+  | .gather2 s r₁ r₂ _ e₁ e₂ => e₁.WF ∧ e₂.WF ∧ Pos s ∧
+      (∀ d, InShape d s → ∀ i ∈ r₁ d, InShape i e₁.denote.shape) ∧
+      (∀ d, InShape d s → ∀ i ∈ r₂ d, InShape i e₂.denote.shape)
+
+/-- `Mat cm e e'`: `e'` is `e` with an arbitrary set of sub-views evaluated to concrete arrays first
+    (`array::eval` / `array::fn` with resolver layout `cm`), possibly nested -/
+inductive Mat [Inhabited α] (cm : Bool) : Expr α → Expr α → Prop where
+  | leaf (a : Arr α) : Mat cm (.leaf a) (.leaf a)
+  | index (w fill) {e e'} : Mat cm e e' → Mat cm (.index w fill e) (.index w fill e')
+  | map (f) {e e'} : Mat cm e e' → Mat cm (.map f e) (.map f e')
+  | zip (f) {e₁ e₁' e₂ e₂'} : Mat cm e₁ e₁' → Mat cm e₂ e₂' → Mat cm (.zip f e₁ e₂) (.zip f e₁' e₂')
+  | gather (s r g) {e e'} : Mat cm e e' → Mat cm (.gather s r g e) (.gather s r g e')
+  | gather2 (s r₁ r₂ g) {e₁ e₁' e₂ e₂'} : Mat cm e₁ e₁' → Mat cm e₂ e₂' →
+      Mat cm (.gather2 s r₁ r₂ g e₁ e₂) (.gather2 s r₁ r₂ g e₁' e₂')
+  | eval {e e'} : Mat cm e e' → Mat cm e (.leaf (evalFresh cm e'.denote).toArr)
+
 end NmVerif.Eval
